@@ -307,10 +307,11 @@ type agg struct {
 	crashes     int
 	wallUS      int64
 	digests     map[int]string
+	pairs       map[string]struct{}
 }
 
 func newAgg() *agg {
-	return &agg{nontrivial: map[string]struct{}{}, scheds: map[string]struct{}{}, shapes: map[string]struct{}{}, faults: map[string]int{}, probes: map[string]int{}, found: map[string]*found{}, digests: map[int]string{}}
+	return &agg{nontrivial: map[string]struct{}{}, scheds: map[string]struct{}{}, shapes: map[string]struct{}{}, faults: map[string]int{}, probes: map[string]int{}, found: map[string]*found{}, digests: map[int]string{}, pairs: map[string]struct{}{}}
 }
 
 func (a *agg) addFound(f *found) {
@@ -347,6 +348,9 @@ func (a *agg) add(r *rec, tier string, keepDigests bool) {
 	}
 	for k, v := range res.Probes {
 		a.probes[k] += v
+	}
+	for _, p := range res.Pairs {
+		a.pairs[p] = struct{}{}
 	}
 	if keepDigests {
 		a.digests[r.Run<<16|r.Sub] = res.TraceDigest
@@ -980,6 +984,19 @@ func writeEvidence(id, tier string, seed uint64, m *meta, a *agg, wall float64, 
 		"worker_crashes_attributed":     a.crashes,
 		"known_or_unlisted_signatures":  len(a.found),
 		"exhaustive":                    false,
+	}
+	if len(a.pairs) > 0 {
+		both := 0
+		for p := range a.pairs {
+			if i := strings.Index(p, "<"); i > 0 {
+				if _, ok := a.pairs[p[i+1:]+"<"+p[:i]]; ok {
+					both++
+				}
+			}
+		}
+		cov["ordered_hook_pairs_observed"] = len(a.pairs)
+		cov["hook_pairs_seen_in_both_orders"] = both / 2
+		cov["ordered_hook_pairs_rule"] = "inside the shutdown window (from the first release at chan.close.begin / nc.close.done): 'a<b' = hook point a of one goroutine role was first reached before hook point b of another role; union over all runs"
 	}
 	ev := map[string]interface{}{
 		"property_id": id,
